@@ -12,4 +12,76 @@ def check(rep, tier, replay=None):
         "defining series coefficient by coefficient to order 8 (d2r_exp(a) contracted with a second rational direction b = d/ds of the dr_exp series at a + s b; d2r_expinv likewise through -J^-1 dJ J^-1); polynomial branches of small-angle switches may differ only "
         "by terms below the tolerance at the largest t that selects them.  A mismatch is a definite violation; agreement along the rays "
         "examined is a necessary condition of the identity for all a (not a proof).  Rounding is not modelled.")
-    raychk.run(rep, tier, "C05", ["d2rexp", "d2rinv"], 1e-5)
+    raychk.run(rep, tier, "C05", ["d2rexp", "d2rinv", "d2rminus", "sqnorm"], 1e-5)
+    check_df(rep)
+
+
+def check_df(rep):
+    """DF: d2_fog(Jf, Hf, Jg, Hg) block i == Jg' Hf_i Jg + sum_k Jf(i,k) Hg_k and d_matrix_product(A, dA, B, dB) == d(A B) in the horizontally
+    stacked layout, as exact polynomial identities in symbolic matrix entries (engine P) against index-level reference loops."""
+    import fe
+    import groups
+    import ir
+    import irw
+    import poly
+    from report import Finding
+    rep.rule("DF", "d2_fog and d_matrix_product equal their index-level definitions as polynomial identities in symbolic entries", minimum=2)
+    W = irw.IRW("c05_df", groups.PRELUDE + "#include <smooth/derivatives.hpp>\n", chunk=1)
+    No, Ny, Nx = 2, 3, 2
+    sig = "const double* p0, const double* p1, const double* p2, const double* p3, double* o1, double* o2"
+    body = ("  constexpr int No = %d, Ny = %d, Nx = %d;\n" % (No, Ny, Nx)
+            + "  Eigen::Map<const Eigen::Matrix<double, No, Ny>> Jf(p0);\n  Eigen::Map<const Eigen::Matrix<double, Ny, No * Ny>> Hf(p1);\n"
+            "  Eigen::Map<const Eigen::Matrix<double, Ny, Nx>> Jg(p2);\n  Eigen::Map<const Eigen::Matrix<double, Nx, Ny * Nx>> Hg(p3);\n"
+            "  Eigen::Map<Eigen::Matrix<double, Nx, No * Nx>> m1(o1), m2(o2);\n"
+            "  const Eigen::Matrix<double, No, Ny> Jf_ = Jf; const Eigen::Matrix<double, Ny, No * Ny> Hf_ = Hf;\n"
+            "  const Eigen::Matrix<double, Ny, Nx> Jg_ = Jg; const Eigen::Matrix<double, Nx, Ny * Nx> Hg_ = Hg;\n"
+            "  m1 = smooth::d2_fog(Jf_, Hf_, Jg_, Hg_);\n"
+            "  for (int i = 0; i < No; ++i) for (int r = 0; r < Nx; ++r) for (int c = 0; c < Nx; ++c) {\n"
+            "    double acc = 0;\n"
+            "    for (int a = 0; a < Ny; ++a) for (int b = 0; b < Ny; ++b) acc += Jg(a, r) * Hf(a, Ny * i + b) * Jg(b, c);\n"
+            "    for (int k = 0; k < Ny; ++k) acc += Jf(i, k) * Hg(r, Nx * k + c);\n"
+            "    m2(r, Nx * i + c) = acc;\n  }\n")
+    W.add("df_d2_fog", sig, body, shape=Nx * No * Nx, nin=4, sizes=[No * Ny, Ny * No * Ny, Ny * Nx, Nx * Ny * Nx],
+          what="d2_fog(Jf, Hf, Jg, Hg) block i == Jg' Hf_i Jg + sum_k Jf(i,k) Hg_k")
+    body2 = ("  constexpr int N = 2, Nv = 3;\n"
+             "  Eigen::Map<const Eigen::Matrix<double, N, N>> A(p0), B(p2);\n  Eigen::Map<const Eigen::Matrix<double, N, N * Nv>> dA(p1), dB(p3);\n"
+             "  Eigen::Map<Eigen::Matrix<double, N, N * Nv>> m1(o1), m2(o2);\n"
+             "  const Eigen::Matrix<double, N, N> A_ = A, B_ = B; const Eigen::Matrix<double, N, N * Nv> dA_ = dA, dB_ = dB;\n"
+             "  m1 = smooth::d_matrix_product(A_, dA_, B_, dB_);\n"
+             "  // block i (columns Nv*i ..) = d((A B)(i, :))' / dx = B' dA_i + sum_j A(i, j) dB_j\n"
+             "  for (int i = 0; i < N; ++i) for (int r = 0; r < N; ++r) for (int v = 0; v < Nv; ++v) {\n"
+             "    double acc = 0;\n    for (int k = 0; k < N; ++k) acc += B(k, r) * dA(k, Nv * i + v);\n"
+             "    for (int j = 0; j < N; ++j) acc += A(i, j) * dB(r, Nv * j + v);\n    m2(r, Nv * i + v) = acc;\n  }\n")
+    W.add("df_d_matrix_product", sig, body2, shape=2 * 2 * 3, nin=4, sizes=[4, 12, 4, 12],
+          what="d_matrix_product(A, dA, B, dB) block i == B' dA_i + sum_j A(i,j) dB_j (square matrices, as used by SE3 d2r_expinv)")
+    # d_matrix_product: A [N x K]?  documented: A [N x K], dA [K x N*Nvar], B [K x M], dB [M x K*Nvar] -> d(A B) [M x N*Nvar] (Hessian form: block per row of the product)
+    facts = W.build()
+    rep.unit("%d chain-rule witnesses (symbolic matrix entries)" % len(W.wits))
+    for fname, (ff, meta, mod) in sorted(facts.items()):
+        nin = meta["nin"]
+
+        def cell_var(p_, off, ty, nin=nin):
+            return "x%d_%d" % (p_, off // 8) if p_ < nin else None
+        cons = poly.Constraints()
+        try:
+            paths = poly.evaluate(ff, cell_var, cons)
+        except (poly.Unsupported, ir.Unresolved) as ex:
+            rep.broke("%s: cannot abstract into the polynomial domain: %s" % (fname, ex))
+            continue
+        bad = None
+        for path in paths:
+            st = path["stores"]
+            for c in range(meta["shape"]):
+                a, b = st.get((nin, c * 8)), st.get((nin + 1, c * 8))
+                if a is None or b is None:
+                    bad = "cell %d is not written" % c
+                    break
+                if not poly.rf_equal(a, b, cons):
+                    an, bn = a.normal(cons), b.normal(cons)
+                    bad = "cell %d: library = %s ; definition = %s" % (c, poly.p_show(an.n), poly.p_show(bn.n))
+                    break
+            if bad:
+                break
+        rep.instance("DF", fname, meta["what"], ok=bad is None, sample={"paths": len(paths), "cells": meta["shape"]})
+        if bad:
+            rep.violation(Finding("DF", fname, meta["what"], "%s fails as a polynomial identity in the matrix entries: %s" % (meta["what"], bad), None, None, detail={"witness": fname}))
